@@ -2067,44 +2067,29 @@ template< size_t L>
       FixedString< L>::insert( size_t index, size_t count, char ch) noexcept
 {
 
-   if (index < mLength)
-   {
-      if (mLength + count <= L)
-      {
-         // aaaccccc\0, insert( 3, 4, 'b')
-         // length = 8, L > 11
-         // --> aaa____ccccc\0
-         std::memmove( &mString[ index + count], &mString[ index], mLength - index + 1);
-         // --> aaabbbbccccc\0
-         std::memset( &mString[ index], ch, count);
-         mLength += count;
-      } else if (index + count <= L)
-      {
-         // aaaccccc\0, insert( 3, 4, 'b')
-         // length = 8, L = 10
-         // --> aaa____ccc\0
-         std::memmove( &mString[ index + count], &mString[ index], L - index - 1);
-         // --> aaabbbbccc\0
-         std::memset( &mString[ index], ch, count);
-         mLength = L;
-      } else // index + count > L
-      {
-         // aaaccccc\0, insert( 3, 6, 'b')
-         // length = 8, L = 8
-         // --> aaabbbbb\0
-         std::memset( &mString[ index], ch, L - index);
-         mLength = L;
-      } // end if
-   } else
-   {
-      // append at the end
-      if (mLength + count > L)
-         count = L - mLength;
+   // an index after the end of the string means: append at the end
+   if (index > mLength)
+      index = mLength;
 
-      std::memset( &mString[ mLength], ch, count);
-      mLength += count;
-   } // end if
+   // number of characters that can be inserted at index without exceeding
+   // the capacity
+   if (count > L - index)
+      count = L - index;
 
+   // number of characters after index that still fit behind the inserted part,
+   // surplus characters are dropped
+   const size_t  keep = std::min( static_cast< size_t>( mLength) - index,
+      L - index - count);
+
+   // aaaccccc\0, insert( 3, 4, 'b')
+   // --> aaa____ccccc\0
+   if (keep > 0)
+      std::memmove( &mString[ index + count], &mString[ index], keep);
+   // --> aaabbbbccccc\0
+   if (count > 0)
+      std::memset( &mString[ index], ch, count);
+
+   mLength = index + count + keep;
    mString[ mLength] = '\0';
    return *this;
 } // FixedString< L>::insert
@@ -2115,46 +2100,29 @@ template< size_t L>
       size_t count) noexcept
 {
 
-   if (index < mLength)
-   {
-      if (mLength + count <= L)
-      {
-         // aaaccccc\0, insert( 3, "bbbb")
-         // length = 8, L > 11
-         // --> aaa____ccccc\0
-         std::memmove( &mString[ index + count], &mString[ index],
-            mLength - index + 1);
-         // --> aaabbbbccccc\0
-         std::memcpy( &mString[ index], str, count);
-         mLength += count;
-      } else if (index + count <= L)
-      {
-         // aaaccccc\0, insert( 3, "bbbb")
-         // length = 8, L = 10
-         // --> aaa____ccc\0
-         std::memmove( &mString[ index + count], &mString[ index],
-            mLength - index + 1);
-         // --> aaabbbbccc\0
-         std::memcpy( &mString[ index], str, count);
-         mLength = L;
-      } else // index + count > L
-      {
-         // aaaccccc\0, insert( 3, "bbbbbb")
-         // length = 8, L = 8
-         // --> aaabbbbb\0
-         std::memcpy( &mString[ index], str, L - index);
-         mLength = L;
-      } // end if
-   } else
-   {
-      // append at the end
-      if (mLength + count > L)
-         count = L - mLength;
+   // an index after the end of the string means: append at the end
+   if (index > mLength)
+      index = mLength;
 
-      std::memcpy( &mString[ mLength], str, count);
-      mLength += count;
-   } // end if
+   // number of characters that can be inserted at index without exceeding
+   // the capacity
+   if (count > L - index)
+      count = L - index;
 
+   // number of characters after index that still fit behind the inserted part,
+   // surplus characters are dropped
+   const size_t  keep = std::min( static_cast< size_t>( mLength) - index,
+      L - index - count);
+
+   // aaaccccc\0, insert( 3, "bbbb")
+   // --> aaa____ccccc\0
+   if (keep > 0)
+      std::memmove( &mString[ index + count], &mString[ index], keep);
+   // --> aaabbbbccccc\0
+   if (count > 0)
+      std::memcpy( &mString[ index], str, count);
+
+   mLength = index + count + keep;
    mString[ mLength] = '\0';
    return *this;
 } // FixedString< L>::insert
